@@ -64,6 +64,7 @@ partial def addlRefs (j : Json) : List GName :=
 def sortNames (l : List GName) : List GName := l.foldl (fun acc n => insertSortedName n acc) []
 
 def namesJson (l : List GName) : Json := Json.arr ((sortNames l).map str).toArray
+def namesJsonRaw (l : List GName) : Json := Json.arr (l.map str).toArray
 
 def opSeeds (fps : Fps) (op : Json) : List GName :=
   let schemaOf (j : Json) : List GName := match j.getObjVal? "schema" with | .ok s => collectRef fps (sOf s) | _ => []
@@ -306,6 +307,48 @@ def emit : Handler := fun req => do
       let tn := String.ofList (Oas3.Naming.toRustTypeName Oas3.Gen.prelude Oas3.Client.idTr k.toList)
       if typeDefs.contains tn && !reach.contains k.toList && !rustReach.contains tn.toList then some tn else none).eraseDups
   let judges : List String := ((arr (fieldD inp "judges" (Json.arr #["closed", "orphans", "size", "default"]))).toOption.getD []).filterMap fun x => x.getStr?.toOption
+  /- round trip through untagged unions (judge "rt"): for every component union of `$ref` members that is emitted as an
+  untagged enum of struct payloads, the full document of every member (valid against the union) must be decoded as
+  a variant that keeps all its keys - under the variant order AS EMITTED -/
+  let strsOf (j : Json) : List GName := ((arr j).toOption.getD []).filterMap fun x => x.getStr?.toOption.map String.toList
+  let refOf (v : Json) : Option String := match v.getObjVal? "$ref" with
+    | .ok (.str r) => if r.startsWith refPrefix then some (r.drop refPrefix.length).toString else none
+    | _ => none
+  let unbox (t : String) : String := let t := t.replace " " ""; if t.startsWith "Box<" && t.endsWith ">" then ((t.drop 4).dropEnd 1).toString else t
+  let rtUnions : List (String × String × List String × List UVariant) := if !judges.contains "rt" then [] else schemasJ0.filterMap fun (k, v) =>
+    let kw := if (v.getObjVal? "oneOf").toOption.isSome then "oneOf" else "anyOf"
+    let members := ((arr (fieldD v kw (Json.arr #[]))).toOption.getD []).filterMap refOf
+    let en := defs.find? fun d => (d.getObjValAs? String "name").toOption == some (rustName0 k) && (d.getObjValAs? String "kind").toOption == some "enum"
+    match en with
+    | some e =>
+      if members.length < 2 || (v.getObjVal? "discriminator").toOption.isSome || fieldD e "untagged" (Json.bool false) != Json.bool true then none else
+      let vs : List (Option UVariant) := ((arr (fieldD e "variants" (Json.arr #[]))).toOption.getD []).map fun va =>
+        match (arr (fieldD va "tys" (Json.arr #[]))).toOption.getD [] with
+        | [.str t] =>
+          (defs.find? fun d => (d.getObjValAs? String "name").toOption == some (unbox t) && (d.getObjValAs? String "kind").toOption == some "struct").map fun sd =>
+            let fs := (arr (fieldD sd "fields" (Json.arr #[]))).toOption.getD []
+            let wire (f : Json) : GName := ((f.getObjValAs? String "wire").toOption.getD "").toList
+            ({ payload := (unbox t).toList, required := (fs.filter fun f => fieldD f "optional" (Json.bool false) != Json.bool true).map wire,
+               wires := fs.map wire, closed := (strsOf (fieldD sd "serde" (Json.arr #[]))).contains "serde(deny_unknown_fields)".toList } : UVariant)
+        | _ => none
+      if vs.any Option.isNone then none else some (k, kw, members, vs.filterMap id)
+    | none => none
+  -- (union, member, reason) of every valid member document that does not survive; `specToo`: it would not survive the
+  -- declaration order of the spec either (then the loss is the spec author's order, not a reordering)
+  let rtLosses : List (String × String × Bool) := rtUnions.flatMap fun (k, kw, members, vs) =>
+    let memberInfo (m : String) : List GName × List GName × Bool := match schemasJ0.lookup m with
+      | some sv => (strsOf (fieldD sv "required" (Json.arr #[])), (match sv.getObjVal? "properties" with | .ok (.obj pm) => pm.toList.map fun (pk, _) => pk.toList | _ => []),
+                    fieldD sv "additionalProperties" Json.null == Json.bool false)
+      | none => ([], [], false)
+    let validates (m : String) (keys : List GName) : Bool := let (req, props, closed) := memberInfo m; req.all keys.contains && (!closed || keys.all props.contains)
+    let specOrder := expectedVariantOrder (members.map fun m => (rustName0 m).toList) (vs.map (·.payload))
+    let vsSpec := specOrder.filterMap fun n => vs.find? (·.payload == n)
+    members.filterMap fun m =>
+      let keys := (memberInfo m).2.1
+      let valid := if kw == "anyOf" then validates m keys else (members.filter fun m' => validates m' keys).length == 1
+      if !valid || keys.isEmpty || keysPreserved vs keys then none else some (k, m, !keysPreserved vsSpec keys)
+  let rtOrderModel : List Json := rtUnions.map fun (k, _, members, vs) => Json.arr #[Json.str k, namesJsonRaw (expectedVariantOrder (members.map fun m => (rustName0 m).toList) (vs.map (·.payload)))]
+  let rtOrderImpl : List Json := rtUnions.map fun (k, _, _, vs) => Json.arr #[Json.str k, namesJsonRaw (vs.map (·.payload))]
   let undefinedNames := if judges.contains "closed" then undefinedNames else []
   let dupTypes := if judges.contains "closed" then dupTypes else []
   let sizeCyc := if judges.contains "size" then sizeCyc else []
@@ -362,6 +405,9 @@ def emit : Handler := fun req => do
       let classes := defCyc.map fun p => classOf (String.ofList p.1)
       verdict false (if classes.contains "" then [] else classes.eraseDups) s!"Default::default() recursion: {defCyc.map (fun p => String.ofList p.1)}"
     else if !orphans.isEmpty then verdict false [] s!"emitted but not used by any selected operation: {orphans}"
+    else if !rtLosses.isEmpty then
+      verdict false (if rtLosses.all (·.2.2) then ["KnownUntaggedShadow"] else [])
+        s!"a valid document does not round-trip through the untagged union (an earlier variant accepts it and drops its members): {rtLosses.map fun l => l.1 ++ "/" ++ l.2.1}"
     else verdict true []
   -- model (documents with groups of operations that share a response shape): the response enums that stay
   -- after `ResponseEnumDeduplicator` = one canonical enum per response signature of the selected operations
@@ -414,8 +460,8 @@ def emit : Handler := fun req => do
   let implJ := if gops.isEmpty then Json.null else
     namesJson ((defs.filter fun d => (d.getObjValAs? String "kind").toOption == some "enum" && ((d.getObjValAs? String "name").toOption.getD "").endsWith "Response").map fun d => ((d.getObjValAs? String "name").toOption.getD "").toList)
   let branch := s!"t{typeDefs.length}" ++ (if defs.any (fun d => ((arr (fieldD d "fields" (Json.arr #[]))).toOption.getD []).any fun f => ((arr (fieldD f "edges" (Json.arr #[]))).toOption.getD []).any fun e => match e with | .arr #[_, .str "box"] => true | _ => false) then "+box" else "")
-  let modelJ := if boxModel == Json.null then modelJ else Json.mkObj [("survivors", modelJ), ("boxed", boxModel)]
-  let implJ := if boxModel == Json.null then implJ else Json.mkObj [("survivors", implJ), ("boxed", boxImpl)]
+  let modelJ := if boxModel == Json.null then modelJ else Json.mkObj [("survivors", modelJ), ("boxed", boxModel), ("variant_order", Json.arr rtOrderModel.toArray)]
+  let implJ := if boxModel == Json.null then implJ else Json.mkObj [("survivors", implJ), ("boxed", boxImpl), ("variant_order", Json.arr rtOrderImpl.toArray)]
   pure (Json.mkObj [("model", modelJ), ("match", modelJ == implJ), ("box_diff", Json.arr boxDiff.toArray), ("judge", judge), ("branch", if typeDefs.isEmpty then "trivial" else (if gops.isEmpty then branch else branch ++ s!"+grp{respPairs.length - (dedupSurvivors respPairs).length}")),
     ("detail", Json.mkObj [("undefined", Json.arr (undefinedNames.map Json.str).toArray), ("orphans", Json.arr (orphans.map Json.str).toArray),
       ("size_cycle", Json.arr (sizeCyc.map (fun p => str p.1)).toArray), ("default_cycle", Json.arr (defCyc.map (fun p => str p.1)).toArray)])])
